@@ -115,6 +115,7 @@ func showChangeMap(m map[uint64][][]byte) string {
 // ---- emitter: one line per operation, "<op>\t<implementation answer>" ----
 
 type Emitter struct {
+	Capture *[][3]string // when set, lines are captured in memory instead of written
 	w      *bufio.Writer
 	f      *os.File
 	Lines  int
@@ -136,6 +137,10 @@ func (e *Emitter) Op(tags, op, impl string) {
 	if strings.ContainsAny(op, "\t\n") || strings.ContainsAny(impl, "\t\n") {
 		panic("bad char in line: " + op)
 	}
+	if e.Capture != nil {
+		*e.Capture = append(*e.Capture, [3]string{tags, op, impl})
+		return
+	}
 	fmt.Fprintf(e.w, "%s\t%s\t%s\n", tags, op, impl)
 	e.Lines++
 }
@@ -143,7 +148,17 @@ func (e *Emitter) Reset(label string) {
 	e.Op("-", "R "+label, "ok")
 	e.Cases++
 }
-func (e *Emitter) Count(k string) { e.Stats[k]++ }
+func (e *Emitter) Count(k string) {
+	if e.Capture == nil {
+		e.Stats[k]++
+	}
+}
+
+// captureEmitter returns an emitter that records lines in memory.
+func captureEmitter() (*Emitter, *[][3]string) {
+	var buf [][3]string
+	return &Emitter{Capture: &buf, Stats: map[string]int{}}, &buf
+}
 func (e *Emitter) Close() {
 	e.w.Flush()
 	e.f.Close()
